@@ -238,6 +238,19 @@ def delivery2(si: int, f0: bool, f1: bool, s0: int, s1: int, p1: int, t1: int, p
     return _run(si, [f0, f1, False], [s0, s1, 0], [(p1, t1), (p2, t2)], [k1])
 
 
+def delivery3(s1: int, f1: bool, p1: int, p2: int, k1: int) -> str:
+    """
+    Three pushes, then flush, while tasks complete in between: a pre-emption to worker 1 at a SYMBOLIC step (an earlier
+    task runs and completes between two pushes) and one back to the application thread at a later symbolic step (the
+    next push is accepted while another task is still in flight): flush still waits for EVERY accepted task.
+    PRE: 0 <= s1 <= 2 and 0 <= p1 <= 48 and p1 < p2 <= 60 and 0 <= k1 <= 2
+    POST: _ == ""
+    """
+    world.begin_path()
+    s1, f1, k1 = world.realize(s1), world.realize(f1), world.realize(k1)
+    return _run(4, [False, f1, False], [0, s1, 0], [(p1, 1), (p2, 0)], [k1, 0])
+
+
 def _mut_callback_keeps_pending():
     import deep.task as t
     src_holder = {}
@@ -292,7 +305,15 @@ def _mut_flush_keeps_open():
     _stepped_handler()
 
 
-MUTANTS = {"callback_keeps_pending": _mut_callback_keeps_pending, "flush_reraises": _mut_flush_reraises, "flush_keeps_open": _mut_flush_keeps_open}
+def _mut_pending_key_from_size():
+    """The pending-map key is taken from the size of the map (keys collide once an earlier task has completed)."""
+    from deep.task import TaskHandler
+    TaskHandler._next_id = lambda self: len(self._pending) + 1
+    _CACHE.clear()
+    _stepped_handler()
+
+
+MUTANTS = {"pending_key_from_size": _mut_pending_key_from_size, "callback_keeps_pending": _mut_callback_keeps_pending, "flush_reraises": _mut_flush_reraises, "flush_keeps_open": _mut_flush_keeps_open}
 
 CONDITIONS = [
     dict(fn="delivery", cubes={"quick": ["si == %d and t1 == %d and f0 == %s and s0 == 0 and s1 == 0 and s2 == 0 and not f2 and k1 == 0 and k2 == 0" % (s, t, f)
@@ -311,6 +332,12 @@ CONDITIONS = [
          twins=["reach@si == 3 and t1 == 3 and t2 == 0 and f0 == False and a2 == 0 and p1 <= 8 and p2 - p1 <= 14", "mutant:flush_keeps_open@si == 3 and t1 == 3 and t2 == 0 and f0 == False and a2 == 0 and 16 < p1 <= 24 and p2 - p1 <= 14"], timeout={"quick": 240, "thorough": 900},
          bounds="application thread (push, flush) + a second application thread pushing once or calling flush as well + 2 workers; two pre-emptions at symbolic steps "
                 "(quick: the first one, at step <= 32, to the second application thread, the second one at most 14 steps later back to the first)"),
+    dict(fn="delivery3", cubes={"quick": ["s1 == %d and f1 == False and k1 == %d and %s and p2 - p1 <= 8" % (a, k, r) for a in (0, 1) for k in (0, 1, 2) for r in ("12 < p1 <= 20", "20 < p1 <= 28", "28 < p1 <= 36", "36 < p1 <= 44")],
+                                "thorough": ["s1 == %d and f1 == %s and k1 == %d and %s" % (a, f, k, r) for a in (0, 1, 2) for f in ("False", "True") for k in (0, 1, 2) for r in ("p1 <= 16", "16 < p1 <= 32", "p1 > 32")]},
+         twins=["reach@s1 == 0 and f1 == False and k1 == 1 and 20 < p1 <= 28 and p2 - p1 <= 8", "mutant:pending_key_from_size@s1 == 0 and f1 == False and k1 == 1 and 20 < p1 <= 28 and p2 - p1 <= 8"],
+         timeout={"quick": 240, "thorough": 900},
+         bounds="3 pushes then flush; pre-emption to worker 1 at a symbolic step (quick: 13..44) and back to the application thread at most 8 (thorough: any number of) steps later; "
+                "the middle task slow by 0-1 (thorough 0-2) steps / failing (thorough); every pick at the forced switch"),
     dict(fn="delivery2", cubes={"quick": [], "thorough": ["si == %d and t1 == %d and t2 == %d and f0 == False and f1 == %s and s0 == 0 and s1 == 0 and k1 == 0 and p1 <= 40 and p2 <= 50" % (s, a, b, g)
                                              for s in (0, 3) for a in (1, 2) for b in (0, 1) for g in ("True", "False")]},
          twins=[], timeout={"quick": 240, "thorough": 900}, bounds="thorough only: two pre-emptions at symbolic step indexes (first <= 40, second <= 50)"),
